@@ -123,6 +123,25 @@ def pair_merged(rng):
     return A, B, None, lambda p: dict(kind="merged", g=[x + 1 for x in g])
 
 
+def pair_merged_sympy_matrix(rng):
+    """Merging the two parameters of a SYMPY MATRIX with a mixed monomial x*y (Taylor bookkeeping)."""
+    A = base_instance(rng, vtype="sympy", k=2, N=3)
+    d = A["d"]
+    for n in [(1, 1)] + ([(2, 1)] if rng.random() < 0.5 else []):
+        A["terms"][n] = hermitian.rand_herm(rng, d, complex_=True, dens=(1, 2), amp=2, fill=1.0)
+    A["format"] = "sympy_matrix"
+    B = copy.deepcopy(A)
+    B["k"] = 1
+    B["terms"] = {}
+    for n, m in A["terms"].items():
+        mm = (sum(n),)
+        B["terms"][mm] = madd(B["terms"][mm], m) if mm in B["terms"] else m
+    B["terms"] = {n: m for n, m in B["terms"].items() if not hermitian.is_zero_mat(m)}
+    B["symnames"] = None
+    B["format"] = rng.choice(["dict", "sympy_matrix", "symkeys"])
+    return A, B, None, lambda p: dict(kind="merged", g=[1, 1])
+
+
 def pair_permuted(rng):
     A = base_instance(rng, k=rng.choice([2, 3]), N=3)
     k = A["k"]
@@ -435,7 +454,7 @@ def pair_projection(rng):
 
 
 KINDS = {
-    "C13": [pair_scaled, pair_merged, pair_permuted, pair_subst, pair_vanishing],
+    "C13": [pair_scaled, pair_merged, pair_merged_sympy_matrix, pair_permuted, pair_subst, pair_vanishing],
     "C14": [pair_format, pair_sympy_matrix_mixed, pair_vtype, pair_designation, pair_eigenbasis, pair_analytic, pair_projection],
     "C15": [pair_relabel, pair_basisperm, pair_degrot, pair_conj, pair_shift, pair_scaleall, pair_dsum],
 }
